@@ -2,6 +2,7 @@ import Driver.Util
 import Driver.Filter
 import Driver.Render
 import Driver.Tok
+import Driver.WfAst
 import Driver.Registry
 import Driver.Table
 import Driver.Footnote
@@ -14,6 +15,7 @@ def handle (line : String) : String :=
   | "filter" :: rest => handleFilter rest
   | "render" :: rest => handleRender rest
   | "tok" :: rest => handleTok rest
+  | "wfast" :: rest => handleWfAst rest
   | "registry" :: rest => handleRegistry rest
   | "table" :: rest => handleTable rest
   | "footnote" :: rest => handleFootnote rest
